@@ -18,6 +18,10 @@ RULE = ("cases = (n source entities, batch size, parallelism, transform kind, pi
 TRUSTED = [
     "math.Round(float64 n / float64 p) modelled as (2n+p)/(2p) on Z: exact for n,p < 2^26",
     "goja / the four JavaScript transforms of the driver are modelled by their per-entity functions g (return, drop odd, duplicate, create)",
+    "copy mode (content level): the three content-preserving transforms (return as is / read and write back every value / rebuild "
+    "with NewEntity) are KIdentity in the model; 'equivalent to a plain copy' is judged by the driver comparing the sink with the sink "
+    "of a job without transform over the same source (canonical JSON), 'running it again produces no new changes' by the sink's "
+    "change-log length after a run from scratch and after a full sync; goja's value conversion itself is not modelled",
     "goroutine scheduling of the chunk workers: results are collected by worker index, so the model is sequential",
 ]
 ASSUMPTIONS = [
@@ -25,16 +29,23 @@ ASSUMPTIONS = [
     "the source dataset is not written during the run",
 ]
 EXHAUSTIVE = {"thorough": True}
+COPY_KINDS = ["identity", "touch", "rebuild"]     # content-preserving transforms of the copy mode (all KIdentity in the model)
 KINDS = ["identity", "dropodd", "dup", "create", "droplow", "pushin"]
-KIND_COQ = {"identity": "KIdentity", "dropodd": "KDropOdd", "dup": "KDup", "create": "KCreate", "droplow": "KDropLow", "pushin": "KPushIn"}
+KIND_COQ = {"touch": "KIdentity", "rebuild": "KIdentity", "identity": "KIdentity", "dropodd": "KDropOdd", "dup": "KDup", "create": "KCreate", "droplow": "KDropLow", "pushin": "KPushIn"}
 
 
 def mk(n, batch, par, kind="identity", full=False, wrap=True):
     return {"n": n, "batch": batch, "par": par, "kind": kind, "full": full, "wrap": wrap}
 
 
+def mkcopy(n, batch, par, kind):
+    """copy mode: rich contents into a real DatasetSink beside a plain copy job; second run from scratch and a full sync add nothing"""
+    return {"n": n, "batch": batch, "par": par, "kind": kind, "full": False, "wrap": False, "copy": True}
+
+
 def witness_cases():
-    return [mk(11, 100, 10), mk(15, 100, 10), mk(19, 100, 10), mk(4, 100, 3), mk(14, 5, 4, "create"),
+    return [mkcopy(13, 5, 2, "touch"), mkcopy(13, 100, 3, "rebuild"), mkcopy(9, 4, 1, "identity"), mkcopy(0, 4, 3, "touch"),
+            mk(11, 100, 10), mk(15, 100, 10), mk(19, 100, 10), mk(4, 100, 3), mk(14, 5, 4, "create"),
             mk(11, 100, 10, "identity", False, False), mk(11, 100, 10, "dup", True, True),
             # a filtering transform that empties a whole NON-final page must not end the run (fullsync and incremental)
             mk(6, 2, 1, "droplow", True, True), mk(5, 1, 1, "dropodd", True, True), mk(7, 1, 2, "droplow", False, True),
@@ -64,8 +75,12 @@ def gen(rng, tier):
             n = rng.range(0, 40)
             out.append(mk(n, rng.choice([1, 2, 3, 5, 7, 10, 1000]), rng.range(1, 12), rng.choice(KINDS),
                           rng.chance(1, 5), rng.chance(3, 4)))
+        for _ in range(12):
+            out.append(mkcopy(rng.range(1, 30), rng.choice([1, 2, 3, 5, 7, 1000]), rng.range(1, 6), rng.choice(COPY_KINDS)))
         return out
     if tier == "search":
+        for _ in range(40):
+            out.append(mkcopy(rng.range(0, 40), rng.choice([1, 2, 3, 5, 7, 1000]), rng.range(1, 8), rng.choice(COPY_KINDS)))
         for _ in range(300):
             n = rng.range(0, 60)
             out.append(mk(n, rng.choice([1, 2, 3, 4, 5, 7, 10, 16, 1000]), rng.range(1, 16), rng.choice(KINDS),
@@ -79,6 +94,8 @@ def gen(rng, tier):
         for p in (2, 3, 5, 10):
             for b in range(1, 7):
                 out.append(mk(n, b, p, KINDS[(n + p + b) % 6], (n + b) % 3 == 0, (n + p) % 3 != 0))
+    for _ in range(150):
+        out.append(mkcopy(rng.range(0, 60), rng.choice([1, 2, 3, 5, 7, 16, 1000]), rng.range(1, 12), rng.choice(COPY_KINDS)))
     for _ in range(600):
         n = rng.range(25, 200)
         out.append(mk(n, rng.choice([7, 10, 16, 33, 64, 1000]), rng.range(1, 40), rng.choice(KINDS),
@@ -107,9 +124,12 @@ def term(c, o):
     zl = lambda l: vlib.coq_list([vlib.zlit(x) for x in l])
     zll = lambda ll: vlib.coq_list([zl(l) for l in ll])
     return ("{| c_n := %d; c_batch := %d; c_par := %d; c_kind := %s; c_full := %s; c_wrap := %s; "
-            "o_outcome := %d%%N; o_seen := %s; o_sink := %s; o_token := %d; o_rerun := %s |}" % (
+            "o_outcome := %d%%N; o_seen := %s; o_sink := %s; o_token := %d; o_rerun := %s; o_copy := %s |}" % (
                 c["n"], c["batch"], c["par"], KIND_COQ[c["kind"]], vlib.coq_bool(c["full"]), vlib.coq_bool(c["wrap"]),
-                OUTCOME.get(o["outcome"], 9), zll(seen), zll(o.get("sink") or []), tok, vlib.zlit(o.get("rerun", -1))))
+                OUTCOME.get(o["outcome"], 9), zll(seen), zll(o.get("sink") or []), tok, vlib.zlit(o.get("rerun", -1)),
+                ("Some (%s, %s, %s, %s, %s)" % (vlib.coq_bool(bool(o.get("dst_eq"))), vlib.zlit(o.get("dst_changes", -1)),
+                                                vlib.zlit(o.get("ref_changes", -1)), vlib.zlit(o.get("re_changes", -1)),
+                                                vlib.zlit(o.get("full_changes", -1)))) if c.get("copy") else "None"))
 
 
 def predict_text(c, o):
@@ -125,7 +145,7 @@ def eff_par(n, p):
 
 def attribute(c, o):
     """signature of the recorded findings on the pinned arithmetic"""
-    if c["full"]:
+    if c["full"] or c.get("copy"):
         return None
     # a page of length L is bad for math.Round arithmetic iff ...
     def page_bad(L):
@@ -158,6 +178,6 @@ def classify(c, o):
 
 
 def tags(c, o):
-    return ["kind=" + c["kind"], "pipeline=" + ("fullsync" if c["full"] else "incremental"),
+    return ["kind=" + c["kind"], "mode=" + ("copy" if c.get("copy") else "ids"), "pipeline=" + ("fullsync" if c["full"] else "incremental"),
             "wrap=%s" % c["wrap"], "outcome=" + o["outcome"],
             "n<p" if c["n"] < c["par"] else "n>=p", "pages=%s" % ("1" if c["batch"] >= c["n"] else ">1")]
